@@ -23,6 +23,8 @@ import (
 	"fmt"
 	"io"
 	"os"
+	"sort"
+	"strconv"
 	"strings"
 
 	"github.com/robfig/soy"
@@ -114,6 +116,7 @@ func execInto(tofu *soyhtml.Tofu, name string, d data.Map, w io.Writer, msgs soy
 // the i-th explicit case of the source (its placeholders are reachable through MsgNode.Placeholder) or from
 // the default case.
 const c12Forms = 3
+const c12PluralTable = 1000 // PluralCase is |n| mod c12Forms for |n| <= this, 0 beyond
 
 type c12Msgs struct {
 	msgs  map[uint64]*soymsg.Message
@@ -123,10 +126,47 @@ type c12Msgs struct {
 func (b *c12Msgs) Locale() string                    { return "xx" }
 func (b *c12Msgs) Message(id uint64) *soymsg.Message { return b.msgs[id] }
 func (b *c12Msgs) PluralCase(n int) int {
+	if n < -c12PluralTable || n > c12PluralTable {
+		return 0 // outside the table the model is given (ops_interpext.ml render_msgs): the default
+	}
 	if n < 0 {
 		n = -n
 	}
 	return n % c12Forms
+}
+
+// c12PartsSexp: the parts of a translation as the nodes Model/Interp.v's msg_bundle holds (raw text, NIdent =
+// placeholder name, NMsgPlural var _ forms _ with one NMsgPluralCase per form)
+func c12PartsSexp(parts []soymsg.Part) string {
+	var out []string
+	for _, p := range parts {
+		switch p := p.(type) {
+		case soymsg.RawTextPart:
+			out = append(out, sp("raw", "0", sx(p.Text)))
+		case soymsg.PlaceholderPart:
+			out = append(out, sp("ident", "0", sx(p.Name)))
+		case soymsg.PluralPart:
+			var forms []string
+			for _, c := range p.Cases {
+				forms = append(forms, sp("pcase", "0", "0", "("+c12PartsSexp(c.Parts)+")"))
+			}
+			out = append(out, sp("plural", "0", sx(p.VarName), sp("null", "0"), "("+strings.Join(forms, " ")+")", "()"))
+		}
+	}
+	return strings.Join(out, " ")
+}
+
+func c12BundleSexp(b *c12Msgs) string {
+	var ids []uint64
+	for id := range b.msgs {
+		ids = append(ids, id)
+	}
+	sort.Slice(ids, func(i, j int) bool { return ids[i] < ids[j] })
+	var ms []string
+	for _, id := range ids {
+		ms = append(ms, "("+strconv.FormatUint(id, 10)+" "+c12PartsSexp(b.msgs[id].Parts)+")")
+	}
+	return "(bundle " + strings.Join(ms, " ") + ")"
 }
 
 func c12Parts(children []ast.Node, style int, tag string) []soymsg.Part {
@@ -279,12 +319,12 @@ func c12Bundle(e *env, key string, files []srcFile, entry string, dataSets []dat
 			if len(msgs.msgs) == 0 {
 				break
 			}
-			// the same sweep with a message bundle that translates every message: oracle only (the model
-			// renders without a bundle)
+			// the same sweep with a message bundle that translates every message; the model is the extended
+			// walker of Model/InterpExt.v (evalMsg through a translation), op render_msgs
 			if plural {
 				e.res.Histogram["bundle-renders-with-plural-translation"]++
 			}
-			c12Render(e, key, tofu, files, entry, d, dsx, false, false, msgs)
+			c12Render(e, key, tofu, files, entry, d, dsx, modelOK, false, msgs)
 		}
 	}
 }
@@ -490,7 +530,15 @@ func c12Render(e *env, key string, tofu *soyhtml.Tofu, files []srcFile, entry st
 	if !modelOK || isPanicErr(err0) {
 		return
 	}
+	bsx := ""
+	if b, ok := msgs.(*c12Msgs); ok {
+		bsx = c12BundleSexp(b)
+		e.res.Histogram["model:render_msgs"]++
+	}
 	req := func(cl, bl string) string {
+		if bsx != "" {
+			return strings.Join([]string{"render_msgs", key, sx(entry), "#4000", cl, bl, bsx, ";", dsx}, " ")
+		}
 		return strings.Join([]string{"render", key, sx(entry), "#4000", cl, bl, "-", "none", ";", dsx}, " ")
 	}
 	reqs := []string{req("none", "none")}
